@@ -304,6 +304,10 @@ def run(chk, fb, tier):
     symmetry.rule_omitted_defaults(chk, fb, "C06.b.defaults", exclude=("CellFormula",))  # cell formulas are C01/C04 matter
     symmetry.rule_attr_fields(chk, fb, "C06.b.fields")
     symmetry.rule_parsed_as_stored(chk, fb, "C06.b.parsed")
+    symmetry.rule_empty_flag_attrs(chk, fb, "C06.b.emptyattrs")
+    symmetry.rule_attr_guards(chk, fb, "C06.b.guards")
+    symmetry.rule_empty_covers_children(chk, fb, "C06.b.children")
+    symmetry.rule_collected_then_filed(chk, fb, "C06.b.filed")
     rule_sheet_list(chk, fb)
     # C06.c sheet-name uniqueness
     C02.rule_sheet_names(chk, fb, "C06.c")
